@@ -204,36 +204,46 @@ def zshMessages (m : Meta) : List Str :=
 
 /-! ### JSON formats: the records handed to `json.Marshal` -/
 
+/-- the quoting step of nushell/action.go on a sanitised value -/
+def nushellQuote (value : Str) : Str :=
+  if Str.containsAny value Gen.nushell_ActionRawValues_containsAny then
+    if Str.hasPrefix value ['~'] then "~\"".toList ++ Replacer.applyChars Gen.nushell_escaper (value.drop 1) ++ ['"']
+    else ['"'] ++ Replacer.applyChars Gen.nushell_escaper value ++ ['"']
+  else value
+
 def nushellRecs (m : Meta) (vs : List RawValue) : List Rec :=
   vs.map (fun v =>
     let value := san Gen.nushell_sanitizer v.value
     let display := san Gen.nushell_sanitizer v.display
     let description := san Gen.nushell_sanitizer v.description
     let nospace := SuffixMatcher.matchesStr m.nospace value
-    let value :=
-      if Str.containsAny value Gen.nushell_ActionRawValues_containsAny then
-        if Str.hasPrefix value ['~'] then "~\"".toList ++ Replacer.applyChars Gen.nushell_escaper (value.drop 1) ++ ['"']
-        else ['"'] ++ Replacer.applyChars Gen.nushell_escaper value ++ ['"']
-      else value
+    let value := nushellQuote value
     let value := if nospace then value else value ++ [' ']
     { insert := value, display := display, description := trimmedDescription Gen.common_maxLength description })
+
+/-- the quoting step of powershell/action.go on a sanitised value -/
+def powershellQuote (value : Str) : Str :=
+  if Str.containsAny value Gen.powershell_ActionRawValues_containsAny then ['\''] ++ value ++ ['\''] else value
 
 def powershellRecs (m : Meta) (vs : List RawValue) : List Rec :=
   (vs.filter (fun v => !v.value.isEmpty)).map (fun v =>
     let value := san Gen.powershell_sanitizer v.value
     let nospace := SuffixMatcher.matchesStr m.nospace value
-    let value := if Str.containsAny value Gen.powershell_ActionRawValues_containsAny then ['\''] ++ value ++ ['\''] else value
+    let value := powershellQuote value
     let value := if nospace then value else value ++ [' ']
     { insert := value, display := san Gen.powershell_sanitizer v.display,
       description := san Gen.powershell_sanitizer v.trimmed })
 
+/-- the quoting step of xonsh/action.go on a sanitised value -/
+def xonshQuote (value : Str) : Str :=
+  if Str.containsAny value Gen.xonsh_ActionRawValues_containsAny then
+    if value.elem '\\' then "r'".toList ++ value ++ ['\''] else ['\''] ++ value ++ ['\'']
+  else value
+
 def xonshRecs (m : Meta) (vs : List RawValue) : List Rec :=
   vs.map (fun v =>
     let value := san Gen.xonsh_sanitizer v.value
-    let value :=
-      if Str.containsAny value Gen.xonsh_ActionRawValues_containsAny then
-        if value.elem '\\' then "r'".toList ++ value ++ ['\''] else ['\''] ++ value ++ ['\'']
-      else value
+    let value := xonshQuote value
     let value := if SuffixMatcher.matchesStr m.nospace value then value else value ++ [' ']
     { insert := value, display := v.display, description := v.trimmed })
 
